@@ -118,6 +118,7 @@ def checkEvents (rest : List String) : Option String :=
 def execLine (st : ExecSt) (fs : List String) : ExecSt × Option (Except String Bool) :=
   match fs with
   | "R" :: _ => ({}, some (.ok false))
+  | "A" :: _ => (st, some (.ok false))
   | "X" :: spec :: rest =>
     let (argvS, obsS) := rest.span (· != "=>")
     if st.dead then (st, some (.ok false)) else
